@@ -101,6 +101,8 @@ func runC16(c *Ctx) {
 		var listing string
 		history := "after-add"
 		twice := r.Chance(1, 5)
+		keep := r.Chance(1, 3)
+		var kept string
 		if p, msg := try(func() {
 			s, e := g.NewSimulator(gc)
 			if e != nil {
@@ -148,11 +150,29 @@ func runC16(c *Ctx) {
 				history = "after-reset"
 			}
 			listing = w.LoadCode()
+			if keep {
+				// a listing is a value: it stays what it was, whatever is listed afterwards
+				kept = strings.Clone(listing)
+				tiny, e := s.AddWarrior(&g.WarriorData{Name: "tiny", Code: []g.Instruction{{Op: g.DAT, OpMode: g.F, AMode: g.IMMEDIATE, BMode: g.IMMEDIATE, B: 1}}})
+				if e == nil {
+					tiny.LoadCode()
+				}
+				for i := 0; i < s.WarriorCount(); i++ {
+					s.GetWarrior(i).LoadCode()
+				}
+			}
 		}); p {
 			c.Violate("C16:panic:"+panicSite(msg), msg, cs(""))
 			return
 		}
 		c.Inc("listings_read")
+		if keep {
+			if kept != listing {
+				c.Violate("C16:listing-changed-afterwards", "the text returned by LoadCode changed after other warriors of the simulator were listed", cs(kept))
+				return
+			}
+			c.Inc("listings_rechecked_after_later_listings")
+		}
 		c.Inc("source_" + source)
 		c.Inc("listing_" + history)
 		if twice {
